@@ -130,6 +130,8 @@ def worker(analysis: Analysis, spec) -> dict:
     rows = []
     pres_req = []
     for r in recs:
+        if r["kind"] == "raise" and r["witness"] and ("Gateway.is_sensor" in r["witness"][-1] or "_request_presentation" in r["witness"][-1]) and "I_PRESENTATION" in r["witness"][-1]:
+            pres_req.append({"facts": [], "job": "I_PRESENTATION (undefined in this version)", "handler": "?", "fields": None, "n_lookups": 1, "n_reqs": 1, "witness": r["witness"], "undefined": True})
         if r["kind"] != "val":
             continue
         if not r["validated"]:
@@ -139,9 +141,10 @@ def worker(analysis: Analysis, spec) -> dict:
         err = shape_ok(r, version, refl)
         rows.append({"handler": handler, "top": top, "type": r["type"], "sub": r["sub"], "err": err, "replies": r["handler_ret"]["kind"] != "none", "ret_none": r.get("ret_none"), "kind": r["handler_ret"]["kind"], "over": r["handler_ret"].get("overrides", {}), "witness": r["witness"] if err else None, "facts_metric": None})
         # is_sensor presentation requests: add_job sinks from is_sensor
-        for s in r["sinks"]:
-            if s["func"] == "__init__:Gateway.is_sensor":
-                pres_req.append({"facts": s["facts"], "job": s["job"], "handler": handler})
+        n_lookups = sum(1 for c in r["calls"] if c == "__init__:Gateway.is_sensor")
+        reqs = [s for s in r["sinks"] if s["kind"] == "add_job" and "__init__:Gateway.is_sensor" in s["stack"]]
+        for s in reqs:
+            pres_req.append({"facts": s["facts"], "job": s["job"], "handler": handler, "fields": s.get("fields"), "n_lookups": n_lookups, "n_reqs": len(reqs), "witness": r["witness"]})
         # reboot reply only under the reboot flag; config M/I by metric: checked on facts
     return {"ctx": "/".join(spec), "version": version, "rows": rows, "pres_req": pres_req, "n": len(recs)}
 
@@ -155,9 +158,9 @@ def presentation_request_rule(analysis: Analysis, res: RuleResult) -> None:
     info = analysis.p.func("__init__:Gateway.is_sensor")
     found = False
     for n in ast.walk(info.node):
-        if isinstance(n, ast.If) and "AwesomeVersion" in unparse(n.test) and "not ret" in unparse(n.test):
+        if isinstance(n, ast.If) and ("AwesomeVersion" in unparse(n.test) or "version_at_least" in unparse(n.test)) and "not ret" in unparse(n.test):
             txt = unparse(n.test)
-            guard_ok = ">= AwesomeVersion('2.0')" in txt and "self.protocol_version" in txt
+            guard_ok = (">= AwesomeVersion('2.0')" in txt or "version_at_least(self.protocol_version, '2.0')" in txt) and "self.protocol_version" in txt
             res.add("C05-R2", "__init__:Gateway.is_sensor / presentation request only when the lookup failed and version >= 2.0", guard_ok, common.where(analysis, info, n), txt[:100])
             for c in common.calls_in(n, "modify"):
                 kw = {k.arg: unparse(k.value) for k in c.keywords}
@@ -182,6 +185,7 @@ def run(analysis: Analysis, tier: str) -> RuleResult:
     sums = common.pmap(analysis, worker, specs)
     res.contexts = ["/".join(s) for s in specs]
     n_rows = 0
+    n_pres_req = 0
     replying = set()
     for s in sums:
         ver = s["version"]
@@ -225,7 +229,16 @@ def run(analysis: Analysis, tier: str) -> RuleResult:
         for pr in s["pres_req"]:
             okv = vnum(ver) >= (2, 0)
             res.add("C05-R2", f"{ver}: presentation requests are sent only from version 2.0", okv, "mysensors/__init__.py", f"is_sensor enqueued {pr['job']}", context=s["ctx"])
-    presentation_request_rule(analysis, res)
+            n_pres_req += 1
+            if pr.get("undefined"):
+                continue
+            f = pr["fields"] or {}
+            okf = f.get("node_id") == "inbound.node_id" and f.get("child_id") == "const:255" and f.get("type") == "enum:MessageType.internal" and f.get("sub_type") == "enum:Internal.I_PRESENTATION" and f.get("payload") == "const:''"
+            res.add("C05-R2", "__init__:Gateway.is_sensor / the presentation request is I_PRESENTATION to the node that was looked up, child 255, empty payload", okf, "mysensors/__init__.py", f"fields {f}", pr["witness"] if not okf else None, context=s["ctx"])
+            okn = pr["n_reqs"] <= pr["n_lookups"]
+            res.add("C05-R2", "__init__:Gateway.is_sensor / one presentation request per failed lookup", okn, "mysensors/__init__.py", f"{pr['n_reqs']} request(s) for {pr['n_lookups']} lookup(s) on the path", pr["witness"] if not okn else None, context=s["ctx"])
+        if vnum(ver) >= (2, 0):
+            res.add("C05-R2", f"{ver}: a failed lookup requests a new presentation", bool(s["pres_req"]), "mysensors/__init__.py", "is_sensor enqueues I_PRESENTATION for an unknown node or child", context=s["ctx"])
     # R5: the value a req reply carries is maintained correctly and only validated values are stored
     from . import c08
 
